@@ -441,6 +441,43 @@ def judge04 (c : Case) : List String × Nat :=
     let (_, _, _, errs, n) := rest.foldl step (b0.bd, [], [], [], 0)
     (errs, n)
 
+/-- C20 at the vi level: the split-window commands.  One or two windows, each showing a buffer; the judge follows
+    which buffer the *other* window shows and what text each buffer had when it was last seen.  `^Ws` `^Wo` `^Wx`
+    keep the current buffer, `^Wj` `^Wk` `^Wc` go to the other window's buffer; none of them changes a text.
+    Any other command may change the current buffer (`:e`, `:b`) — then the dumped path is taken as the truth. -/
+def judge20 (c : Case) : List String × Nat :=
+  let bs := c.impl.filter (fun r => r.mark == "B" || r.mark == "E")
+  match bs with
+  | [] => ([], 0)
+  | b0 :: rest =>
+    let remember (seen : List (String × Bytes)) (r : ImplBd) := (r.path, r.bd.text) :: seen.filter (·.1 != r.path)
+    let step (acc : ImplBd × Option String × List (String × Bytes) × List String × Nat) (r : ImplBd) :=
+      let (prev, other, seen, errs, n) := acc
+      let ks := (c.keys.drop prev.bd.kpos).take (r.bd.kpos - prev.bd.kpos)
+      let here := s!"kpos={r.bd.kpos} keys={bytesHex (c.keys.take r.bd.kpos)}"
+      let stay (other' : Option String) :=
+        let e := (if r.path == prev.path then [] else [s!"clause=window_command_keeps_buffer {here} was={prev.path} now={r.path}"])
+              ++ (if r.path == prev.path && r.bd.text != prev.bd.text then [s!"clause=window_command_keeps_text {here}"] else [])
+        (r, other', remember seen r, errs ++ e, n + 1)
+      let go_ (other' : Option String) :=
+        match other with
+        | none => stay other          -- a single window: the command does nothing
+        | some o =>
+          let e := (if r.path == o then [] else [s!"clause=window_command_reaches_other_window {here} want={o} now={r.path}"])
+                ++ (match seen.find? (·.1 == o) with
+                    | some (_, t) => if r.path == o && r.bd.text != t then [s!"clause=window_command_keeps_text {here} buffer={o}"] else []
+                    | none => [])
+          (r, other', remember seen r, errs ++ e, n + 1)
+      if ks == [23, 115] then (match other with | none => stay (some prev.path) | some _ => stay other)
+      else if ks == [23, 111] then stay none
+      else if ks == [23, 120] then stay other
+      else if ks == [23, 106] || ks == [23, 107] then go_ (other.map (fun _ => prev.path))
+      else if ks == [23, 99] then go_ none
+      else if ks.contains 23 then (r, none, remember seen r, errs, n)      -- other ^W forms: lose track of the windows
+      else (r, other, remember seen r, errs, n)
+    let (_, _, _, errs, n) := rest.foldl step (b0, none, [(b0.path, b0.bd.text)], [], 0)
+    (errs, n)
+
 /-- the stream judge: model correspondence plus the property's reference judgement -/
 def judge (mode : Nat) (kv : KV) : Verdict :=
   let base := ViD.judge 0 kv
@@ -451,14 +488,15 @@ def judge (mode : Nat) (kv : KV) : Verdict :=
     match c.impl.getLast? with
     | some r => if r.mark == "Q" then [] else [s!"clause=reaches_the_quit_it_is_given end={r.mark} kpos={r.bd.kpos} of {c.keys.length}"]
     | none => ["clause=reaches_the_quit_it_is_given no result"]
-  let (errs, n, m) := if mode == 5 then (quitErr, 0, 0) else if mode == 7 then (let (e, n) := judge07 c; (e, n, 0)) else if mode == 13 then judge13 c else if mode == 19 then (let (e, n) := judge19 c; (e, n, 0)) else if mode == 16 then (let (e, n) := judge16 c; (e, n, 0)) else if mode == 4 then (let (e, n) := judge04 c; (e, n, 0)) else ([], 0, 0)
+  let (errs, n, m) := if mode == 5 then (quitErr, 0, 0) else if mode == 7 then (let (e, n) := judge07 c; (e, n, 0)) else if mode == 13 then judge13 c else if mode == 19 then (let (e, n) := judge19 c; (e, n, 0)) else if mode == 16 then (let (e, n) := judge16 c; (e, n, 0)) else if mode == 4 then (let (e, n) := judge04 c; (e, n, 0)) else if mode == 20 then (let (e, n) := judge20 c; (e, n, 0)) else ([], 0, 0)
   -- C19: the screen update routines against Model/Screen.lean (a model-vs-code difference, not a spec failure)
   let (opDiffs, opCalls) : List String × Nat :=
     if mode != 19 then ([], 0) else
     (c.impl.filter (fun r => r.mark == "B" || r.mark == "E")).foldl (fun (acc : List String × Nat) r =>
       let (e, k) := judgeOps r.ops (c.rows - 1).toNat r.bd.xtop
       (acc.1 ++ e, acc.2 + k)) ([], 0)
-  { base with diffs := base.diffs ++ opDiffs.take 2,
+  -- mode 20: a second file and split windows are outside the vi model; only the reference judges
+  { base with diffs := if mode == 20 then [] else base.diffs ++ opDiffs.take 2,
               specfails := (errs.take 3).map (fun s => (s.take 400).toString),
               tags := base.tags ++ (List.replicate n "judged") ++ (List.replicate m "found") ++ (List.replicate opCalls "drawcalls") }
 
